@@ -54,7 +54,8 @@ class RaggedMetaSess(arrayhist.Sess):
                 if kk in self.rkeys:
                     lm[self.rkeys[kk]] = self.mabs(vv)
             agree = (len(md) == len(dd) and sorted(md.keys()) == sorted(dd.keys()) and all(k in md for k in dd)
-                     and all(am.canon(md[k]) == am.canon(dd[k]) for k in dd) and md.get('#nokey', 5) == 5)
+                     and all(am.canon(md[k]) == am.canon(dd[k]) for k in dd) and md.get('#nokey', 5) == 5
+                     and all(am.canon(md.get(k, '#default')) == am.canon(dd[k]) for k in dd))
             o['livemeta'] = {'d': lm, 'accessors_agree': agree, 'n': len(dd)}
         except Exception as e:
             o['livemeta'] = {'error': repr(e)}
